@@ -3,6 +3,7 @@
   `int()` on digit strings, fixed-width fields.
 -/
 import ICal.Model.Codec
+set_option linter.unusedSimpArgs false
 namespace ICal
 
 /-! ## characters -/
@@ -251,5 +252,464 @@ theorem num4_dig (x : Nat) (h : x < 10000) :
 
 theorem num2_lt (a b : Char) (ha : isDigit a = true) (hb : isDigit b = true) : num2 a b < 100 := by
   have := digitVal_lt a ha; have := digitVal_lt b hb; rw [num2_val]; omega
+
+/-! ## dates and times as fixed-width fields -/
+
+theorem daysInMonth_le (y m : Nat) : daysInMonth y m ≤ 31 := by
+  unfold daysInMonth; split
+  · split <;> omega
+  · split <;> omega
+
+theorem validDate_bounds {y m d : Nat} (h : validDate y m d = true) : y < 10000 ∧ m < 100 ∧ d < 100 := by
+  unfold validDate at h
+  simp only [Bool.and_eq_true, decide_eq_true_iff] at h
+  have := daysInMonth_le y m
+  omega
+
+theorem validTime_bounds {h m s : Nat} (hv : validTime h m s = true) : h < 24 ∧ m < 60 ∧ s < 60 := by
+  unfold validTime at hv
+  simp only [Bool.and_eq_true, decide_eq_true_iff] at hv
+  omega
+
+theorem mkDate_nat (y m d : Nat) (h : validDate y m d = true) :
+    mkDate (y : Int) (m : Int) (d : Int) = .ok ⟨y, m, d⟩ := by
+  unfold mkDate
+  simp [h]
+
+theorem okTime_nat (h m s : Nat) : okTime (h : Int) (m : Int) (s : Int) = validTime h m s := by
+  simp [okTime]
+
+/-- the eight characters of `f"{y:04}{m:02}{d:02}"` -/
+def dateChars (y m d : Nat) : Str :=
+  [dig (y / 1000), dig (y / 100 % 10), dig (y / 10 % 10), dig (y % 10), dig (m / 10), dig (m % 10),
+    dig (d / 10), dig (d % 10)]
+
+/-- the six characters of `f"{h:02}{m:02}{s:02}"` -/
+def hmsChars (h m s : Nat) : Str :=
+  [dig (h / 10), dig (h % 10), dig (m / 10), dig (m % 10), dig (s / 10), dig (s % 10)]
+
+theorem vDateTo_eq (y m d : Nat) (hy : y < 10000) (hm : m < 100) (hd : d < 100) :
+    vDateTo ⟨y, m, d⟩ = dateChars y m d := by
+  unfold vDateTo dateChars
+  simp only [pad4_eq y hy, pad2_eq m hm, pad2_eq d hd, List.cons_append, List.nil_append]
+
+theorem hmsTo_eq (h m s : Nat) (hh : h < 100) (hm : m < 100) (hs : s < 100) :
+    hmsTo h m s = hmsChars h m s := by
+  unfold hmsTo hmsChars
+  simp only [pad2_eq h hh, pad2_eq m hm, pad2_eq s hs, List.cons_append, List.nil_append]
+
+theorem rfcDate_dateChars (y m d : Nat) (hv : validDate y m d = true) :
+    rfcDate (dateChars y m d) = some ⟨y, m, d⟩ := by
+  obtain ⟨hy, hm, hd⟩ := validDate_bounds hv
+  unfold rfcDate dateChars
+  simp only [num4_dig y hy, num2_dig m hm, num2_dig d hd, hv,
+    isDigit_dig _ (show y / 1000 < 10 by omega), isDigit_dig _ (show y / 100 % 10 < 10 by omega),
+    isDigit_dig _ (show y / 10 % 10 < 10 by omega), isDigit_dig _ (show y % 10 < 10 by omega),
+    isDigit_dig _ (show m / 10 < 10 by omega), isDigit_dig _ (show m % 10 < 10 by omega),
+    isDigit_dig _ (show d / 10 < 10 by omega), isDigit_dig _ (show d % 10 < 10 by omega),
+    Bool.and_self, if_true]
+
+theorem rfcTime_hmsChars (h m s : Nat) (hv : validTime h m s = true) :
+    rfcTime (hmsChars h m s) = some ⟨h, m, s, false⟩ := by
+  obtain ⟨hh, hm, hs⟩ := validTime_bounds hv
+  unfold rfcTime hmsChars
+  simp only [num2_dig h (by omega), num2_dig m (by omega), num2_dig s (by omega), hv,
+    isDigit_dig _ (show h / 10 < 10 by omega), isDigit_dig _ (show h % 10 < 10 by omega),
+    isDigit_dig _ (show m / 10 < 10 by omega), isDigit_dig _ (show m % 10 < 10 by omega),
+    isDigit_dig _ (show s / 10 < 10 by omega), isDigit_dig _ (show s % 10 < 10 by omega),
+    Bool.and_self, if_true]
+
+theorem rfcTime_hmsChars_Z (h m s : Nat) (hv : validTime h m s = true) :
+    rfcTime (hmsChars h m s ++ ['Z']) = some ⟨h, m, s, true⟩ := by
+  obtain ⟨hh, hm, hs⟩ := validTime_bounds hv
+  unfold rfcTime hmsChars
+  simp only [List.cons_append, List.nil_append,
+    num2_dig h (by omega), num2_dig m (by omega), num2_dig s (by omega), hv,
+    isDigit_dig _ (show h / 10 < 10 by omega), isDigit_dig _ (show h % 10 < 10 by omega),
+    isDigit_dig _ (show m / 10 < 10 by omega), isDigit_dig _ (show m % 10 < 10 by omega),
+    isDigit_dig _ (show s / 10 < 10 by omega), isDigit_dig _ (show s % 10 < 10 by omega),
+    Bool.and_self, if_true]
+
+/-- what `rfcDate t = some v` says about `t` -/
+theorem rfcDate_inv {t : Str} {v : PDate} (h : rfcDate t = some v) :
+    ∃ a b c d e f g i, t = [a, b, c, d, e, f, g, i] ∧
+      isDigit a = true ∧ isDigit b = true ∧ isDigit c = true ∧ isDigit d = true ∧ isDigit e = true ∧
+      isDigit f = true ∧ isDigit g = true ∧ isDigit i = true ∧
+      validDate (num4 a b c d) (num2 e f) (num2 g i) = true ∧ v = ⟨num4 a b c d, num2 e f, num2 g i⟩ := by
+  unfold rfcDate at h
+  split at h
+  · next a b c d e f g i =>
+    split at h
+    · next hc =>
+      simp only [Bool.and_eq_true] at hc
+      obtain ⟨⟨⟨⟨⟨⟨⟨⟨ha, hb⟩, hc'⟩, hd⟩, he⟩, hf⟩, hg⟩, hi⟩, hv⟩ := hc
+      cases h
+      exact ⟨a, b, c, d, e, f, g, i, rfl, ha, hb, hc', hd, he, hf, hg, hi, hv, rfl⟩
+    · cases h
+  · cases h
+
+/-- what `rfcTime t = some v` says about `t` -/
+theorem rfcTime_inv {t : Str} {v : PTime} (h : rfcTime t = some v) :
+    ∃ a b c d e f, (t = [a, b, c, d, e, f] ∧ v.utc = false ∨ t = [a, b, c, d, e, f, 'Z'] ∧ v.utc = true) ∧
+      isDigit a = true ∧ isDigit b = true ∧ isDigit c = true ∧ isDigit d = true ∧ isDigit e = true ∧
+      isDigit f = true ∧ validTime (num2 a b) (num2 c d) (num2 e f) = true ∧
+      v.h = num2 a b ∧ v.mi = num2 c d ∧ v.s = num2 e f := by
+  unfold rfcTime at h
+  split at h
+  · next a b c d e f =>
+    split at h
+    · next hc =>
+      simp only [Bool.and_eq_true] at hc
+      obtain ⟨⟨⟨⟨⟨⟨ha, hb⟩, hc'⟩, hd⟩, he⟩, hf⟩, hv⟩ := hc
+      cases h
+      exact ⟨a, b, c, d, e, f, Or.inl ⟨rfl, rfl⟩, ha, hb, hc', hd, he, hf, hv, rfl, rfl, rfl⟩
+    · cases h
+  · next a b c d e f =>
+    split at h
+    · next hc =>
+      simp only [Bool.and_eq_true] at hc
+      obtain ⟨⟨⟨⟨⟨⟨ha, hb⟩, hc'⟩, hd⟩, he⟩, hf⟩, hv⟩ := hc
+      cases h
+      exact ⟨a, b, c, d, e, f, Or.inr ⟨rfl, rfl⟩, ha, hb, hc', hd, he, hf, hv, rfl, rfl, rfl⟩
+    · cases h
+  · cases h
+
+theorem vDateFrom_chars (a b c d e f g i : Char) (rest : Str)
+    (ha : isDigit a = true) (hb : isDigit b = true) (hc : isDigit c = true) (hd : isDigit d = true)
+    (he : isDigit e = true) (hf : isDigit f = true) (hg : isDigit g = true) (hi : isDigit i = true)
+    (hv : validDate (num4 a b c d) (num2 e f) (num2 g i) = true) :
+    vDateFrom (a :: b :: c :: d :: e :: f :: g :: i :: rest) = .ok ⟨num4 a b c d, num2 e f, num2 g i⟩ := by
+  have s1 : slice (a :: b :: c :: d :: e :: f :: g :: i :: rest) 0 4 = [a, b, c, d] := rfl
+  have s2 : slice (a :: b :: c :: d :: e :: f :: g :: i :: rest) 4 6 = [e, f] := rfl
+  have s3 : slice (a :: b :: c :: d :: e :: f :: g :: i :: rest) 6 8 = [g, i] := rfl
+  unfold vDateFrom
+  rw [s1, s2, s3, pyIntE_4 a b c d ha hb hc hd, pyIntE_2 e f he hf, pyIntE_2 g i hg hi]
+  exact mkDate_nat _ _ _ hv
+
+theorem vTimeFrom_chars (a b c d e f : Char) (rest : Str)
+    (ha : isDigit a = true) (hb : isDigit b = true) (hc : isDigit c = true) (hd : isDigit d = true)
+    (he : isDigit e = true) (hf : isDigit f = true)
+    (hv : validTime (num2 a b) (num2 c d) (num2 e f) = true) :
+    vTimeFrom (a :: b :: c :: d :: e :: f :: rest) = .ok ⟨num2 a b, num2 c d, num2 e f, false⟩ := by
+  have s1 : slice (a :: b :: c :: d :: e :: f :: rest) 0 2 = [a, b] := rfl
+  have s2 : slice (a :: b :: c :: d :: e :: f :: rest) 2 4 = [c, d] := rfl
+  have s3 : slice (a :: b :: c :: d :: e :: f :: rest) 4 6 = [e, f] := rfl
+  unfold vTimeFrom
+  rw [s1, s2, s3, pyIntE_2 a b ha hb, pyIntE_2 c d hc hd, pyIntE_2 e f he hf]
+  simp [bind, Except.bind, okTime_nat, hv]
+
+theorem vDatetimeFrom_chars (a b c d e f g i x j k l m n o : Char) (z : Bool)
+    (ha : isDigit a = true) (hb : isDigit b = true) (hc : isDigit c = true) (hd : isDigit d = true)
+    (he : isDigit e = true) (hf : isDigit f = true) (hg : isDigit g = true) (hi : isDigit i = true)
+    (hj : isDigit j = true) (hk : isDigit k = true) (hl : isDigit l = true) (hm : isDigit m = true)
+    (hn : isDigit n = true) (ho : isDigit o = true)
+    (hv : validDate (num4 a b c d) (num2 e f) (num2 g i) = true)
+    (ht : validTime (num2 j k) (num2 l m) (num2 n o) = true) :
+    vDatetimeFrom (a :: b :: c :: d :: e :: f :: g :: i :: x :: j :: k :: l :: m :: n :: o :: (if z then ['Z'] else []))
+      = .ok ⟨⟨num4 a b c d, num2 e f, num2 g i⟩, num2 j k, num2 l m, num2 n o, z⟩ := by
+  generalize hr : (if z then ['Z'] else []) = rest
+  have s1 : slice (a :: b :: c :: d :: e :: f :: g :: i :: x :: j :: k :: l :: m :: n :: o :: rest) 0 4 = [a, b, c, d] := rfl
+  have s2 : slice (a :: b :: c :: d :: e :: f :: g :: i :: x :: j :: k :: l :: m :: n :: o :: rest) 4 6 = [e, f] := rfl
+  have s3 : slice (a :: b :: c :: d :: e :: f :: g :: i :: x :: j :: k :: l :: m :: n :: o :: rest) 6 8 = [g, i] := rfl
+  have s4 : slice (a :: b :: c :: d :: e :: f :: g :: i :: x :: j :: k :: l :: m :: n :: o :: rest) 9 11 = [j, k] := rfl
+  have s5 : slice (a :: b :: c :: d :: e :: f :: g :: i :: x :: j :: k :: l :: m :: n :: o :: rest) 11 13 = [l, m] := rfl
+  have s6 : slice (a :: b :: c :: d :: e :: f :: g :: i :: x :: j :: k :: l :: m :: n :: o :: rest) 13 15 = [n, o] := rfl
+  have s7 : (a :: b :: c :: d :: e :: f :: g :: i :: x :: j :: k :: l :: m :: n :: o :: rest).drop 15 = rest := rfl
+  have s8 : slice (a :: b :: c :: d :: e :: f :: g :: i :: x :: j :: k :: l :: m :: n :: o :: rest) 15 16 = rest.take 1 := rfl
+  unfold vDatetimeFrom
+  rw [s1, s2, s3, s4, s5, s6, s7, s8, pyIntE_4 a b c d ha hb hc hd, pyIntE_2 e f he hf, pyIntE_2 g i hg hi,
+    pyIntE_2 j k hj hk, pyIntE_2 l m hl hm, pyIntE_2 n o hn ho]
+  subst hr
+  cases z <;> simp [bind, Except.bind, okTime_nat, hv, ht, mkDate_nat]
+
+theorem rfcDateTime_inv {t : Str} {v : PDateTime} (h : rfcDateTime t = some v) :
+    ∃ a b c d e f g i j k l m n o,
+      t = a :: b :: c :: d :: e :: f :: g :: i :: 'T' :: j :: k :: l :: m :: n :: o :: (if v.utc then ['Z'] else []) ∧
+      isDigit a = true ∧ isDigit b = true ∧ isDigit c = true ∧ isDigit d = true ∧ isDigit e = true ∧
+      isDigit f = true ∧ isDigit g = true ∧ isDigit i = true ∧
+      isDigit j = true ∧ isDigit k = true ∧ isDigit l = true ∧ isDigit m = true ∧ isDigit n = true ∧
+      isDigit o = true ∧
+      validDate (num4 a b c d) (num2 e f) (num2 g i) = true ∧
+      validTime (num2 j k) (num2 l m) (num2 n o) = true ∧
+      v = ⟨⟨num4 a b c d, num2 e f, num2 g i⟩, num2 j k, num2 l m, num2 n o, v.utc⟩ := by
+  unfold rfcDateTime at h
+  split at h
+  · next a b c d e f g i rest =>
+    split at h
+    · next dt tm hd ht =>
+      cases h
+      obtain ⟨a', b', c', d', e', f', g', i', heq, ha, hb, hc, hd', he, hf, hg, hi, hv, rfl⟩ := rfcDate_inv hd
+      simp only [List.cons.injEq, and_true] at heq
+      obtain ⟨rfl, rfl, rfl, rfl, rfl, rfl, rfl, rfl⟩ := heq
+      obtain ⟨j, k, l, m, n, o, hform, hj, hk, hl, hm, hn, ho, hvt, e1, e2, e3⟩ := rfcTime_inv ht
+      refine ⟨a, b, c, d, e, f, g, i, j, k, l, m, n, o, ?_, ha, hb, hc, hd', he, hf, hg, hi, hj, hk, hl, hm, hn, ho, hv, hvt, ?_⟩
+      · rcases hform with ⟨rfl, hz⟩ | ⟨rfl, hz⟩ <;> simp [hz]
+      · simp [e1, e2, e3]
+    · cases h
+  · cases h
+
+/-! ## DURATION: the encoder's text through the regex matcher -/
+
+theorem spanDigits_append (ds : Str) (c : Char) (rest : Str)
+    (hds : ∀ x ∈ ds, isDigit x = true) (hc : isDigit c = false) :
+    spanDigits (ds ++ c :: rest) = (ds, c :: rest) := by
+  induction ds with
+  | nil => simp [spanDigits, hc]
+  | cons d ds ih =>
+    have hd := hds d (by simp)
+    have := ih (fun x hx => hds x (by simp [hx]))
+    simp [spanDigits, hd, this]
+
+@[simp] theorem optUnit_nil (u : Char) : optUnit u [] = (0, []) := by simp [optUnit, spanDigits]
+
+/-- present group -/
+theorem optUnit_hit (u : Char) (hu : isDigit u = false) (n : Nat) (rest : Str) :
+    optUnit u (natToStr n ++ u :: rest) = (n, rest) := by
+  unfold optUnit
+  rw [spanDigits_append _ _ _ (natToStr_digits n) hu]
+  cases h : natToStr n with
+  | nil => exact absurd h (natToStr_ne_nil n)
+  | cons d ds => simp [← h, ofDigits_natToStr]
+
+/-- absent group: digits followed by another unit letter -/
+theorem optUnit_miss (u v : Char) (hv : isDigit v = false) (huv : v ≠ u) (n : Nat) (rest : Str) :
+    optUnit u (natToStr n ++ v :: rest) = (0, natToStr n ++ v :: rest) := by
+  unfold optUnit
+  rw [spanDigits_append _ _ _ (natToStr_digits n) hv]
+  cases h : natToStr n with
+  | nil => exact absurd h (natToStr_ne_nil n)
+  | cons d ds => simp [huv]
+
+/-- absent group: the text does not start with a digit -/
+theorem optUnit_nodigit (u : Char) (l : Str) (h : ∀ c, l.head? = some c → isDigit c = false) :
+    optUnit u l = (0, l) := by
+  unfold optUnit
+  cases l with
+  | nil => simp [spanDigits]
+  | cons c cs => have := h c rfl; simp [spanDigits, this]
+
+/-- parsing the H/M/S text generated for (h, m, s) gives back (h, m, s) -/
+theorem parse_hms (h m s : Nat) :
+    let r1 := optUnit 'H' (hmsText h m s)
+    let r2 := optUnit 'M' r1.2
+    let r3 := optUnit 'S' r2.2
+    (r1.1, r2.1, r3.1, r3.2) = (h, m, s, []) := by
+  unfold hmsText
+  by_cases hh : h = 0 <;> by_cases hm : m = 0 <;> by_cases hs : s = 0
+  all_goals simp only [hh, hm, hs, ne_eq, not_true_eq_false, not_false_eq_true, false_and, true_and,
+    and_false, and_true, or_false, or_true, false_or, true_or, if_true, if_false, List.nil_append,
+    List.append_nil, List.append_assoc, List.cons_append]
+  · simp
+  · rw [optUnit_miss 'H' 'S' (by decide) (by decide), optUnit_miss 'M' 'S' (by decide) (by decide),
+        optUnit_hit 'S' (by decide)]
+  · rw [optUnit_miss 'H' 'M' (by decide) (by decide), optUnit_hit 'M' (by decide)]
+    simp
+  · rw [optUnit_miss 'H' 'M' (by decide) (by decide), optUnit_hit 'M' (by decide),
+        optUnit_hit 'S' (by decide)]
+  · rw [optUnit_hit 'H' (by decide)]
+    simp
+  · rw [optUnit_hit 'H' (by decide)]
+    simp only []
+    rw [show natToStr 0 ++ 'M' :: (natToStr s ++ ['S']) = natToStr 0 ++ 'M' :: (natToStr s ++ 'S' :: []) from rfl,
+        optUnit_hit 'M' (by decide), optUnit_hit 'S' (by decide)]
+  · rw [optUnit_hit 'H' (by decide)]
+    simp only []
+    rw [optUnit_hit 'M' (by decide)]
+    simp
+  · rw [optUnit_hit 'H' (by decide)]
+    simp only []
+    rw [optUnit_hit 'M' (by decide)]
+    simp only []
+    rw [optUnit_hit 'S' (by decide)]
+
+theorem parseT_timepart (secs : Nat) :
+    parseT (timepartOf secs) = (secs / 3600, secs % 3600 / 60, secs % 60, []) ∨
+    (secs = 0 ∧ parseT (timepartOf secs) = (0, 0, 0, [])) := by
+  unfold timepartOf
+  by_cases h0 : secs = 0
+  · right; simp [h0, parseT]
+  · left
+    simp only [h0, if_false, parseT]
+    exact parse_hms _ _ _
+
+theorem parseDurBody_durBodyOf (a : Nat) : parseDurBody (durBodyOf a) = some a := by
+  have hT := parseT_timepart (a % 86400)
+  have key : ∀ t : Nat × Nat × Nat × Str,
+      (t = ((a % 86400) / 3600, (a % 86400) % 3600 / 60, (a % 86400) % 60, []) ∨
+       (a % 86400 = 0 ∧ t = (0, 0, 0, []))) →
+      t.2.2.2 = [] ∧ t.1 * 3600 + t.2.1 * 60 + t.2.2.1 = a % 86400 := by
+    intro t ht
+    rcases ht with rfl | ⟨h0, rfl⟩
+    · refine ⟨rfl, ?_⟩; simp only []; omega
+    · exact ⟨rfl, by simp [h0]⟩
+  unfold durBodyOf
+  simp only []
+  split
+  · next hcond =>
+    obtain ⟨hd, hne⟩ := hcond
+    have htp : ∃ x, timepartOf (a % 86400) = 'T' :: x := by
+      unfold timepartOf at hne ⊢
+      by_cases h0 : a % 86400 = 0
+      · simp [h0] at hne
+      · exact ⟨_, by rw [if_neg h0]⟩
+    obtain ⟨x, hx⟩ := htp
+    have k := key _ hT
+    simp only [parseDurBody]
+    rw [hx] at k ⊢
+    rw [optUnit_nodigit 'W' ('T' :: x) (by intro c hc; simp at hc; subst hc; decide)]
+    simp only []
+    rw [optUnit_nodigit 'D' ('T' :: x) (by intro c hc; simp at hc; subst hc; decide)]
+    simp only [k.1, true_or, if_true]
+    have := Nat.div_add_mod a 86400
+    congr 1; omega
+  · next hcond =>
+    simp only [parseDurBody]
+    rw [optUnit_miss 'W' 'D' (by decide) (by decide)]
+    simp only []
+    rw [optUnit_hit 'D' (by decide)]
+    simp only []
+    have k := key _ hT
+    simp only [k.1, true_or, if_true]
+    have := Nat.div_add_mod a 86400
+    congr 1; omega
+
+theorem durBodyOf_P (a : Nat) : ∃ x, durBodyOf a = 'P' :: x := by
+  unfold durBodyOf; simp only []; split <;> exact ⟨_, rfl⟩
+
+theorem durFrom_P (x : Str) :
+    durFrom ('P' :: x) = (parseDurBody ('P' :: x)).map (fun (v : Nat) => Int.ofNat v) := by
+  unfold durFrom
+  split
+  · next r heq => simp at heq
+  · next r heq => simp at heq
+  · rfl
+
+theorem durFrom_minus (r : Str) :
+    durFrom ('-' :: r) = (parseDurBody r).map (fun (v : Nat) => -(Int.ofNat v)) := by
+  unfold durFrom; rfl
+
+theorem durFrom_plus (r : Str) :
+    durFrom ('+' :: r) = (parseDurBody r).map (fun (v : Nat) => Int.ofNat v) := by
+  unfold durFrom; rfl
+
+/-! ## DURATION: the RFC grammar side -/
+
+theorem rfcNum_hit (u : Char) (hu : isDigit u = false) (n : Nat) (rest : Str) :
+    rfcNum u (natToStr n ++ u :: rest) = some (n, rest) := by
+  unfold rfcNum
+  rw [spanDigits_append _ _ _ (natToStr_digits n) hu]
+  cases h : natToStr n with
+  | nil => exact absurd h (natToStr_ne_nil n)
+  | cons d ds => simp [← h, ofDigits_natToStr]
+
+theorem rfcNum_miss (u v : Char) (hv : isDigit v = false) (huv : v ≠ u) (n : Nat) (rest : Str) :
+    rfcNum u (natToStr n ++ v :: rest) = none := by
+  unfold rfcNum
+  rw [spanDigits_append _ _ _ (natToStr_digits n) hv]
+  cases h : natToStr n with
+  | nil => exact absurd h (natToStr_ne_nil n)
+  | cons d ds => simp [huv]
+
+theorem rfcNum_nodigit (u : Char) (l : Str) (h : ∀ c, l.head? = some c → isDigit c = false) :
+    rfcNum u l = none := by
+  unfold rfcNum
+  cases l with
+  | nil => simp [spanDigits]
+  | cons c cs => have := h c rfl; simp [spanDigits, this]
+
+/-- the functions in `if` form -/
+theorem rfcDurSecond_of {l : Str} {n : Nat} {r : Str} (h : rfcNum 'S' l = some (n, r)) :
+    rfcDurSecond l = if r = [] then some n else none := by
+  unfold rfcDurSecond; rw [h]; cases r <;> simp
+
+theorem rfcDurMinute_of {l : Str} {n : Nat} {r : Str} (h : rfcNum 'M' l = some (n, r)) :
+    rfcDurMinute l = if r = [] then some (n * 60) else (rfcDurSecond r).map (fun s => n * 60 + s) := by
+  unfold rfcDurMinute; rw [h]; cases r <;> simp
+
+theorem rfcDurHour_of {l : Str} {n : Nat} {r : Str} (h : rfcNum 'H' l = some (n, r)) :
+    rfcDurHour l = if r = [] then some (n * 3600) else (rfcDurMinute r).map (fun s => n * 3600 + s) := by
+  unfold rfcDurHour; rw [h]; cases r <;> simp
+
+theorem rfcDurDate_of {l : Str} {n : Nat} {r : Str} (h : rfcNum 'D' l = some (n, r)) :
+    rfcDurDate l = if r = [] then some (n * 86400) else (rfcDurTime r).map (fun s => n * 86400 + s) := by
+  unfold rfcDurDate; rw [h]; cases r <;> simp
+
+theorem rfcDurWeek_of {l : Str} {n : Nat} {r : Str} (h : rfcNum 'W' l = some (n, r)) :
+    rfcDurWeek l = if r = [] then some (n * 604800) else none := by
+  unfold rfcDurWeek; rw [h]; cases r <;> simp
+
+theorem rfcDurSecond_none {l : Str} (h : rfcNum 'S' l = none) : rfcDurSecond l = none := by
+  unfold rfcDurSecond; rw [h]
+theorem rfcDurMinute_none {l : Str} (h : rfcNum 'M' l = none) : rfcDurMinute l = none := by
+  unfold rfcDurMinute; rw [h]
+theorem rfcDurHour_none {l : Str} (h : rfcNum 'H' l = none) : rfcDurHour l = none := by
+  unfold rfcDurHour; rw [h]
+theorem rfcDurDate_none {l : Str} (h : rfcNum 'D' l = none) : rfcDurDate l = none := by
+  unfold rfcDurDate; rw [h]
+theorem rfcDurWeek_none {l : Str} (h : rfcNum 'W' l = none) : rfcDurWeek l = none := by
+  unfold rfcDurWeek; rw [h]
+
+theorem app_ne_nil (a : Str) (c : Char) (r : Str) : a ++ c :: r ≠ [] := by simp
+
+/-- the H/M/S text the encoder writes is an RFC `dur-hour / dur-minute / dur-second` of that value -/
+theorem rfcDurTime_hmsText (h m s : Nat) (hne : ¬ (h = 0 ∧ m = 0 ∧ s = 0)) :
+    rfcDurTime ('T' :: hmsText h m s) = some (h * 3600 + m * 60 + s) := by
+  unfold hmsText rfcDurTime
+  by_cases hh : h = 0 <;> by_cases hm : m = 0 <;> by_cases hs : s = 0
+  all_goals simp only [hh, hm, hs, ne_eq, not_true_eq_false, not_false_eq_true, false_and, true_and,
+    and_false, and_true, or_false, or_true, false_or, true_or, if_true, if_false, List.nil_append,
+    List.append_nil, List.append_assoc, List.cons_append]
+  · exact absurd ⟨hh, hm, hs⟩ hne
+  · -- sS
+    rw [rfcDurHour_none (rfcNum_miss 'H' 'S' (by decide) (by decide) s []),
+      rfcDurMinute_none (rfcNum_miss 'M' 'S' (by decide) (by decide) s []),
+      rfcDurSecond_of (rfcNum_hit 'S' (by decide) s [])]
+    simp
+  · -- mM
+    rw [rfcDurHour_none (rfcNum_miss 'H' 'M' (by decide) (by decide) m []),
+      rfcDurMinute_of (rfcNum_hit 'M' (by decide) m [])]
+    simp
+  · -- mMsS
+    rw [rfcDurHour_none (rfcNum_miss 'H' 'M' (by decide) (by decide) m _),
+      rfcDurMinute_of (rfcNum_hit 'M' (by decide) m _), if_neg (app_ne_nil _ _ _),
+      rfcDurSecond_of (rfcNum_hit 'S' (by decide) s [])]
+    simp
+  · -- hH
+    rw [rfcDurHour_of (rfcNum_hit 'H' (by decide) h [])]
+    simp
+  · -- hH0MsS
+    rw [rfcDurHour_of (rfcNum_hit 'H' (by decide) h _), if_neg (app_ne_nil _ _ _),
+      rfcDurMinute_of (rfcNum_hit 'M' (by decide) 0 _), if_neg (app_ne_nil _ _ _),
+      rfcDurSecond_of (rfcNum_hit 'S' (by decide) s [])]
+    simp
+  · -- hHmM
+    rw [rfcDurHour_of (rfcNum_hit 'H' (by decide) h _), if_neg (app_ne_nil _ _ _),
+      rfcDurMinute_of (rfcNum_hit 'M' (by decide) m [])]
+    simp [Nat.add_assoc]
+  · -- hHmMsS
+    rw [rfcDurHour_of (rfcNum_hit 'H' (by decide) h _), if_neg (app_ne_nil _ _ _),
+      rfcDurMinute_of (rfcNum_hit 'M' (by decide) m _), if_neg (app_ne_nil _ _ _),
+      rfcDurSecond_of (rfcNum_hit 'S' (by decide) s [])]
+    simp [Nat.add_assoc]
+
+theorem rfcDurBody_durBodyOf (a : Nat) : rfcDurBody (durBodyOf a) = some a := by
+  have hdm := Nat.div_add_mod a 86400
+  unfold durBodyOf timepartOf
+  simp only []
+  by_cases h0 : a % 86400 = 0
+  · -- no time part: P<days>D
+    simp only [h0, if_true, ne_eq, not_true_eq_false, and_false, if_false, rfcDurBody]
+    rw [rfcDurDate_of (rfcNum_hit 'D' (by decide) (a / 86400) [])]
+    simp; omega
+  · have hne : ¬ ((a % 86400) / 3600 = 0 ∧ (a % 86400) % 3600 / 60 = 0 ∧ (a % 86400) % 60 = 0) := by omega
+    have hT := rfcDurTime_hmsText _ _ _ hne
+    simp only [h0, if_false]
+    by_cases hd : a / 86400 = 0
+    · simp only [hd, ne_eq, reduceCtorEq, not_false_eq_true, and_self, if_true, rfcDurBody]
+      rw [rfcDurDate_none (rfcNum_nodigit 'D' _ (by intro c hc; simp at hc; subst hc; decide)), hT]
+      simp; omega
+    · simp only [hd, false_and, if_false, rfcDurBody]
+      rw [rfcDurDate_of (rfcNum_hit 'D' (by decide) (a / 86400) _), if_neg (by simp), hT]
+      simp; omega
 
 end ICal
